@@ -21,7 +21,7 @@ def _setp(amp, params=None):
 
 def conformance(tier):
     out = {}
-    for name in ("CFG3", "CFG_SPIN", "CFG_HALF", "CFG4", "CFG_ID0", "CFG_IDB", "CFG_IDF", "CFG_TOP1", "CFG_TOPH"):
+    for name in ("CFG3", "CFG_SPIN", "CFG_HALF", "CFG4", "CFG4S", "CFG_ID0", "CFG_IDB", "CFG_IDF", "CFG_TOP1", "CFG_TOPH"):
         amp, config = AT.build_model(get_cfg(name))
         amp.vm.rp2xy_all()
         _setp(amp)
@@ -46,7 +46,7 @@ def replay(p):
             d0 = _np(amp(AT.data_of(config, p4)))
             d1 = _np(amp(AT.data_of(config, {k: f(v) for k, v in p4.items()})))
             err = float(np.max(np.abs(d1 - d0) / np.abs(d0)))
-            return {"reproduced": bool(err > 1e-8), "error_magnitude": err, "density": d0.tolist(), "density_transformed": d1.tolist()}
+            return {"reproduced": bool(err > 1e-6), "error_magnitude": err, "density": d0.tolist(), "density_transformed": d1.tolist()}
         if kind == "identical":
             p4 = AT.phsp_p4(config, 2, seed=3)
             ids = get_cfg(cfg)["data"]["identical_particles"][0]
@@ -55,7 +55,7 @@ def replay(p):
             d0 = _np(amp(AT.data_of(config, p4)))
             d1 = _np(amp(AT.data_of(config, sw)))
             err = float(np.max(np.abs(d1 - d0) / np.abs(d0)))
-            return {"reproduced": bool(err > 1e-8), "error_magnitude": err}
+            return {"reproduced": bool(err > 1e-6), "error_magnitude": err}
         if kind == "top_angles":
             p4 = AT.phsp_p4(config, 1, seed=3)
 
@@ -73,7 +73,7 @@ def replay(p):
             b = dens(None, None)
             d = dens(p["alpha"], p["beta"])
             err = abs(d - b) / abs(b)
-            return {"reproduced": bool(err > 1e-8), "error_magnitude": err}
+            return {"reproduced": bool(err > 1e-6), "error_magnitude": err}
         if kind == "nonneg":
             data = AT.phsp_data(config, 2, seed=3)
             d = _np(amp(data))
